@@ -132,6 +132,8 @@ class Ctx:
         self.broken.append(Broken(kind, name, detail))
 
     def add_violation(self, what: str, replay: dict, finding_key: Optional[str] = None):
+        if isinstance(replay, dict):
+            replay.setdefault('pythonhashseed', os.environ.get('PYTHONHASHSEED'))
         self.violations.append(Violation(what, replay, finding_key))
 
     # -- lean driver
